@@ -9,6 +9,7 @@ import (
 	"io"
 	"runtime/debug"
 	"strings"
+	"time"
 
 	"github.com/godaddy/asherah/go/appencryption"
 	pb "github.com/godaddy/asherah/server/go/api"
@@ -174,8 +175,51 @@ func runC19(t *simrt.Tape, o Opts) Outcome {
 		}
 		p := w.NewProc(pol)
 		svc := server.NewAppEncryptionWithFactory(p.Factory)
-		// material prepared directly through the SDK: a genuine record for partition a, one for partition b
+		// one run in eight goes through the service's own constructor (its own in-memory metastore,
+		// static KMS and memguard secrets) instead of the simulated deployment: what is checked there is
+		// the sidecar against itself
+		ownCtor := !swept && t.Choose(8, "own-constructor") == 1
+		if ownCtor {
+			svc = server.NewAppEncryption(&server.Options{ServiceName: "svc", ProductID: "prod", Metastore: "memory", KMS: "static",
+				ExpireAfter: 90 * 24 * time.Hour, CheckInterval: time.Hour, EnableSessionCaching: t.Choose(2, "own-constructor.session-cache") == 1, SessionCacheMaxSize: 1000, SessionCacheDuration: 2 * time.Hour})
+			defer server.CloseSessionFactory(svc)
+		}
+		// call runs one complete, fault-free stream and returns its responses
+		call := func(reqs ...*pb.SessionRequest) []*pb.SessionResponse {
+			ms := &memStream{s: s, recvErrAt: -1, sendErrAt: -1, reqs: reqs}
+			func() {
+				defer func() { recover() }()
+				svc.Session(ms)
+			}()
+			return ms.sent
+		}
+		getSession := func(part string) *pb.SessionRequest {
+			return &pb.SessionRequest{Request: &pb.SessionRequest_GetSession{GetSession: &pb.GetSession{PartitionId: part}}}
+		}
+		// roundtrip decrypts a record the sidecar produced for part: through the SDK session of the
+		// simulated deployment, or (own constructor) through another stream of the sidecar itself
+		var seOf map[string]*world.Sess
+		roundtrip := func(part string, drr *appencryption.DataRowRecord) ([]byte, error) {
+			if !ownCtor {
+				out, op := w.Decrypt(seOf[part], drr)
+				return out, op.Err
+			}
+			resp := call(getSession(part), &pb.SessionRequest{Request: &pb.SessionRequest_Decrypt{Decrypt: &pb.Decrypt{DataRowRecord: toPB(drr)}}})
+			if len(resp) != 2 || resp[1].GetDecryptResponse() == nil {
+				return nil, fmt.Errorf("the sidecar cannot decrypt its own record: %v", resp)
+			}
+			return resp[1].GetDecryptResponse().GetData(), nil
+		}
+		// material prepared beforehand: a genuine record per partition
 		mk := func(part string) (*world.Rec, *world.Sess) {
+			if ownCtor {
+				pl := w.Payload(2)
+				resp := call(getSession(part), &pb.SessionRequest{Request: &pb.SessionRequest_Encrypt{Encrypt: &pb.Encrypt{Data: pl}}})
+				if len(resp) != 2 || resp[1].GetEncryptResponse() == nil {
+					return nil, nil
+				}
+				return &world.Rec{Part: part, Payload: pl, DRR: *fromPB(resp[1].GetEncryptResponse().GetDataRowRecord())}, nil
+			}
 			se, err := w.Open(p, part)
 			if err != nil {
 				return nil, nil
@@ -197,6 +241,27 @@ func runC19(t *simrt.Tape, o Opts) Outcome {
 		if recA == nil || recB == nil {
 			return
 		}
+		// concurrent and successive streams may each be a different client with its own partition (and
+		// its own genuine record, with its own plaintext)
+		streamParts := []string{partA, partA, partA, partA}
+		recOf := map[string]*world.Rec{partA: recA}
+		seOf = map[string]*world.Sess{partA: seA}
+		if !swept && nstreams > 1 && t.Choose(2, "stream-partitions") == 1 {
+			streamParts = []string{partA, "c", "d", "e"}
+			for _, p := range streamParts[1:] {
+				r, se := mk(p)
+				if r == nil {
+					return
+				}
+				recOf[p], seOf[p] = r, se
+			}
+		}
+		partOf := func(idx int) string {
+			if idx < 0 {
+				return partA
+			}
+			return streamParts[idx%len(streamParts)]
+		}
 		type plan struct {
 			seq       []int
 			recvErrAt int
@@ -209,6 +274,10 @@ func runC19(t *simrt.Tape, o Opts) Outcome {
 				continue
 			}
 			n := t.Choose(12, "len")
+			if t.Choose(10, "long-stream") == 1 {
+				// a long-lived client: dozens of requests on one stream, many of them rejected
+				n = 40 + t.Choose(60, "long-stream.len")
+			}
 			pl := plan{recvErrAt: -1, sendErrAt: -1}
 			for k := 0; k < n; k++ {
 				// bias towards a valid get-session first
@@ -230,11 +299,13 @@ func runC19(t *simrt.Tape, o Opts) Outcome {
 		runStream := func(idx int, pl plan) {
 			ms := &memStream{s: s, recvErrAt: pl.recvErrAt, sendErrAt: pl.sendErrAt, fired: w.Faults.Fired}
 			payloads := map[int][]byte{}
+			myPart := partOf(idx)
+			recA := recOf[myPart]
 			for i, k := range pl.seq {
 				var r *pb.SessionRequest
 				switch k {
 				case rqGetOK:
-					r = &pb.SessionRequest{Request: &pb.SessionRequest_GetSession{GetSession: &pb.GetSession{PartitionId: partA}}}
+					r = &pb.SessionRequest{Request: &pb.SessionRequest_GetSession{GetSession: &pb.GetSession{PartitionId: myPart}}}
 				case rqGetEmpty:
 					r = &pb.SessionRequest{Request: &pb.SessionRequest_GetSession{GetSession: &pb.GetSession{PartitionId: ""}}}
 				case rqEncrypt:
@@ -349,9 +420,9 @@ func runC19(t *simrt.Tape, o Opts) Outcome {
 						w.Violate("encrypt-response", "encrypt-response", "encrypt on an established session returned %v (sequence %v)", resp, names)
 						return
 					}
-					out, op := w.Decrypt(seA, fromPB(er.GetDataRowRecord()))
-					if op.Err != nil || !bytes.Equal(out, payloads[i]) {
-						w.Violate("roundtrip", "roundtrip", "a record produced by the sidecar does not decrypt through the SDK to the original payload: %v", op.Err)
+					out, rerr := roundtrip(myPart, fromPB(er.GetDataRowRecord()))
+					if rerr != nil || !bytes.Equal(out, payloads[i]) {
+						w.Violate("roundtrip", "roundtrip", "a record produced by the sidecar for partition %q does not decrypt under that partition to the original payload: %v", myPart, rerr)
 						return
 					}
 				case rqDecGenuine:
